@@ -287,15 +287,81 @@ def r1_scalers(ctx, mi) -> None:
 
 # ----------------------------------------------------------------------- R2
 def r2_onehot(ctx, mi) -> None:
+  """Block width and valid-column count are compared symbolically: with R = bounds[1] - bounds[0] feasible codes and O
+  out-of-vocabulary columns, the spec declares R + O columns, embed indexes eye(R + O), unembed takes argmax over the
+  first R columns."""
+  sp = _sympy()
   bij = mi.classes.get('ModelInputArrayBijector')
   fi = bij.methods['onehot_embedder_from_spec']
-  t = unparse(fi.node, 0)
-  emb = 'np.eye(output_spec.num_dimensions, dtype=output_spec.dtype)[x.flatten()]' in t
-  une = 'np.argmax(x[:, :output_spec.num_dimensions - output_spec.num_oovs], axis=1)' in t
-  ndim = 'num_dimensions=int(spec.bounds[1] - spec.bounds[0] + num_oovs)' in t
-  ctx.check(emb and une and ndim, 'R2', 'one-hot embed / unembed', fi.node,
+  b0, b1, O = sp.symbols('b0 b1 O')
+  ctor = next((c for c in ast.walk(fi.node) if isinstance(c, ast.Call) and (dotted(c.func) or '').endswith('NumpyArraySpec')
+               and any(k.arg == 'num_dimensions' for k in c.keywords)), None)
+  if ctor is None:
+    raise AnalysisError('onehot_embedder_from_spec: output NumpyArraySpec(num_dimensions=...) not found')
+  outer_defs = {}
+  for n in fi.node.body:
+    if isinstance(n, ast.Assign) and len(n.targets) == 1 and isinstance(n.targets[0], ast.Name):
+      outer_defs.setdefault(n.targets[0].id, []).append(n.value)
+
+  def sym(e: ast.AST, fn, depth=0):
+    if depth > 8:
+      raise AnalysisError('one-hot width expression too deep')
+    t = unparse(e, 0)
+    if t in ('spec.bounds[1]',):
+      return b1
+    if t in ('spec.bounds[0]',):
+      return b0
+    if t in ('num_oovs', 'output_spec.num_oovs'):
+      return O
+    if t == 'output_spec.num_dimensions':
+      return sym(next(k.value for k in ctor.keywords if k.arg == 'num_dimensions'), fi.node, depth + 1)
+    if isinstance(e, ast.Constant) and isinstance(e.value, (int, float)):
+      return sp.Integer(e.value) if isinstance(e.value, int) else sp.Float(e.value)
+    if isinstance(e, ast.Call) and dotted(e.func) == 'int' and len(e.args) == 1:
+      return sym(e.args[0], fn, depth + 1)
+    if isinstance(e, ast.BinOp) and isinstance(e.op, (ast.Add, ast.Sub)):
+      l, r = sym(e.left, fn, depth + 1), sym(e.right, fn, depth + 1)
+      return l + r if isinstance(e.op, ast.Add) else l - r
+    if isinstance(e, ast.IfExp) and unparse(e.test, 0) == 'pad_oovs':
+      return O if (sym(e.body, fn, depth + 1), sym(e.orelse, fn, depth + 1)) == (1, 0) else sp.Symbol('unknown')
+    if isinstance(e, ast.Name):
+      r = flow.resolve_local(fn, e)
+      if r is not e:
+        return sym(r, fn, depth + 1)
+      if e.id in outer_defs and len(outer_defs[e.id]) == 1:
+        return sym(outer_defs[e.id][0], fi.node, depth + 1)
+    raise AnalysisError(f'one-hot width: cannot interpret `{t}`')
+
+  n_dims = sym(next(k.value for k in ctor.keywords if k.arg == 'num_dimensions'), fi.node)
+  ndim_ok = sp.simplify(n_dims - (b1 - b0 + O)) == 0
+  inner = [n for n in fi.node.body if isinstance(n, ast.FunctionDef)]
+  lambdas = [n.value for n in fi.node.body if isinstance(n, ast.Assign) and isinstance(n.value, ast.Lambda)]
+  emb_ok = une_ok = False
+  for fn in inner:
+    for r in [x for x in ast.walk(fn) if isinstance(x, ast.Return) and x.value is not None]:
+      v = flow.resolve_local(fn, r.value)
+      # embed: <eye(W, ...)>[codes]
+      if isinstance(v, ast.Subscript):
+        base = flow.resolve_local(fn, v.value)
+        if isinstance(base, ast.Call) and (dotted(base.func) or '').endswith('eye') and base.args:
+          emb_ok = sp.simplify(sym(base.args[0], fn) - n_dims) == 0
+      # unembed: argmax(X[:, :K], axis=1)[.astype(..)]
+      # the decoded index IS the argmax (optionally cast): anything merged in (np.where, masks) can produce the
+      # out-of-vocabulary index, i.e. a missing parameter, for a real-valued input
+      core = v
+      while isinstance(core, ast.Call) and isinstance(core.func, ast.Attribute) and core.func.attr in ('astype', 'flatten', 'ravel', 'reshape'):
+        core = core.func.value
+      for c in [core]:
+        if isinstance(c, ast.Call) and (dotted(c.func) or '').endswith('argmax') and c.args:
+          sub = flow.resolve_local(fn, c.args[0])
+          axis1 = any(k.arg == 'axis' and isinstance(k.value, ast.Constant) and k.value.value in (1, -1) for k in c.keywords)
+          if isinstance(sub, ast.Subscript) and isinstance(sub.slice, ast.Tuple) and len(sub.slice.elts) == 2 \
+              and isinstance(sub.slice.elts[1], ast.Slice) and sub.slice.elts[1].lower is None and sub.slice.elts[1].upper is not None:
+            une_ok = axis1 and sp.simplify(sym(sub.slice.elts[1].upper, fn) - (b1 - b0)) == 0
+  ctx.check(bool(emb_ok and une_ok and ndim_ok), 'R2', 'one-hot embed / unembed', fi.node,
             'eye(n)[code]; argmax over columns [:n - num_oovs]; n = range + num_oovs',
-            'embed and unembed no longer agree on the block width / out-of-vocabulary columns',
+            f'embed and unembed no longer agree on the block width / out-of-vocabulary columns (spec width ok: {bool(ndim_ok)}, '
+            f'eye width ok: {bool(emb_ok)}, argmax over the valid columns only: {bool(une_ok)})',
             construct='onehot', func=fi.qualname)
 
 
